@@ -334,6 +334,32 @@ def parse_file(ty, path, backend="sse2"):
     return entries, skipped
 
 
+def parse_swizzles(ty, path):
+    """trait-impl swizzle methods of a SIMD-backed type: `fn xyz(self) -> T` / `fn with_xy(self, rhs: T) -> Self`"""
+    if not os.path.exists(path):
+        return []
+    s = strip_comments(open(path).read())
+    m = re.search(r"impl (Vec[234]Swizzles) for (\w+)", s)
+    if not m:
+        return []
+    trait = m.group(1)
+    out = []
+    for fm in re.finditer(r"(?m)^    fn (\w+)\(self(?:, rhs: ([\w:]+))?\) -> ([\w:]+)\s*\{", s):
+        name, rhs, ret = fm.groups()
+        ret = norm_type(ret, ty)
+        sig = "%s::%s(self%s) -> %s" % (trait, name, (", rhs: " + rhs) if rhs else "", ret)
+        if rhs:
+            rhs = norm_type(rhs, ty)
+            body = "let a_self: {T} = <{T} as Arg>::get(s); let a_rhs: {R} = <{R} as Arg>::get(s); {{ let r: {O} = <{T} as {TR}>::{n}(a_self, a_rhs); o.put(&r); }}".format(T=ty, R=rhs, O=ret, TR=trait, n=name)
+        else:
+            body = "let a_self: {T} = <{T} as Arg>::get(s); {{ let r: {O} = <{T} as {TR}>::{n}(a_self); o.put(&r); }}".format(T=ty, O=ret, TR=trait, n=name)
+        out.append({"key": "swizzle %s" % name, "ty": ty, "name": "swizzle::" + name, "sig": sig, "body": body, "width": 32, "kind": 1})
+    return out
+
+
+SWIZZLE_FILES = {"Vec3A": "swizzles/{b}/vec3a_impl.rs", "Vec4": "swizzles/{b}/vec4_impl.rs"}
+
+
 def main():
     per_backend = {}
     union = {}
@@ -353,6 +379,10 @@ def main():
                 ents.append(x)
             for x in sk:
                 allskipped.setdefault("%s | %s" % (ty, x["key"]), x)
+            if ty in SWIZZLE_FILES:
+                for x in parse_swizzles(ty, os.path.join(SRC, SWIZZLE_FILES[ty].format(b=b))):
+                    x["key"] = "%s | %s" % (ty, x["key"])
+                    ents.append(x)
         per_backend[b] = ents
         for x in ents:
             union.setdefault(x["key"], x)
